@@ -448,6 +448,9 @@ func load(repo string) {
 	for _, f := range files {
 		for _, d := range f.Decls {
 			fd, ok := d.(*ast.FuncDecl)
+			if ok && fd.Recv == nil && fd.Body != nil {
+				plainFuncs[fd.Name.Name] = fd
+			}
 			if !ok || fd.Recv == nil || fd.Body == nil || len(fd.Recv.List[0].Names) == 0 {
 				continue
 			}
@@ -726,6 +729,12 @@ func locktable(exemptPath, outV, outJSON string) {
 // ---------------------------------------------------------------------------------------------------------------
 // sync skeleton: the ordered synchronisation events of the functions the concurrency models are about
 
+// plain (receiver-less) functions whose skeletons are generated too, and plain calls that are recorded although they carry no selector
+var plainFuncs = map[string]*ast.FuncDecl{}
+var syncPlain = []string{"OpenStore", "translateIndex", "finishIndexTranslation", "remapIndex"}
+var namedPlainCalls = map[string]bool{"finishIndexTranslation": true, "writeTranslationJournal": true, "translateIndex": true, "copyFile": true,
+	"writeHeader": true, "remapIndex": true, "upgradeIndex": true}
+
 var syncFuncs = []string{"Store.Flush", "Store.flushTick", "Store.commit", "Store.Close", "Store.run", "Store.Put", "Store.Remove", "Store.Get",
 	"Store.Has", "Store.GetSize", "primaryGC.reapRecords", "primaryGC.gc",
 	"primaryGC.run", "primaryGC.close", "MultihashPrimary.Close", "Index.garbageCollector", "Index.Close", "Index.Put", "Index.Update", "Index.update",
@@ -837,7 +846,7 @@ func (k *sk) call(c *ast.CallExpr, deferred bool) {
 			}
 		}
 	}
-	if strings.Contains(name, ".") || name == "panic" {
+	if strings.Contains(name, ".") || name == "panic" || namedPlainCalls[name] {
 		n := "SCall"
 		if deferred {
 			n = "SDeferCall"
@@ -1017,6 +1026,19 @@ func syncSkeleton(outV string) {
 		}
 		k := &sk{recv: fi.decl.Recv.List[0].Names[0].Name, recvType: fi.recvType, stack: map[string]bool{n: true}}
 		k.block(fi.decl.Body)
+		fmt.Fprintf(&sb, "Definition %s : list sev := [\n  %s\n].\n", id, strings.Join(k.ev, ";\n  "))
+		names = append(names, id)
+	}
+	for _, n := range syncPlain {
+		id := "skel_" + n
+		fd, ok := plainFuncs[n]
+		if !ok {
+			fmt.Fprintf(&sb, "Definition %s : list sev := [SMissing]. (* function not found in the source *)\n", id)
+			names = append(names, id)
+			continue
+		}
+		k := &sk{recv: "", recvType: "", stack: map[string]bool{n: true}}
+		k.block(fd.Body)
 		fmt.Fprintf(&sb, "Definition %s : list sev := [\n  %s\n].\n", id, strings.Join(k.ev, ";\n  "))
 		names = append(names, id)
 	}
